@@ -216,6 +216,17 @@ TRANSLATED = [
     (UT, 'splice_tuple', 'trans_dimssrc', ['Ems.Gen.DimsSrc.spliceBody'], ['Ems.C03.splice_generated']),
     (UT, 'find_unused_dimension', 'trans_dimssrc', ['Ems.Gen.DimsSrc.findUnusedSeparator', 'Ems.Gen.DimsSrc.findUnusedStart'],
      ['Ems.C03.find_unused_generated']),
+    # ---- C11: registry (harness/trans_registrysrc.py -> Gen/RegistrySrc.lean)
+    (R, 'ConventionRegistry.conventions', 'trans_registrysrc', ['Ems.Gen.RegistrySrc.conventionsSrc'], ['Ems.C11.conventions_generated']),
+    (R, 'ConventionRegistry.match_conventions', 'trans_registrysrc', ['Ems.Gen.RegistrySrc.matchSrc'], ['Ems.C11.match_generated']),
+    (R, 'ConventionRegistry.guess_convention', 'trans_registrysrc', ['Ems.Gen.RegistrySrc.guessSrc'], ['Ems.C11.guess_generated', 'Ems.C11.detection_generated']),
+    # ---- C04: point lookup (harness/trans_lookupsrc.py -> Gen/LookupSrc.lean)
+    (B, 'Convention.get_index_for_point', 'trans_lookupsrc', ['Ems.Gen.LookupSrc.lookupSrc'], ['Ems.C04.lookup_generated']),
+    # ---- C08: grid clipping helpers (harness/trans_masking.py -> Gen/MaskingSrc.lean)
+    (M, 'find_fill_value', 'trans_masking', ['Ems.Gen.msFindFillValue'], ['Ems.C08.find_fill_value_generated']),
+    (M, 'calculate_grid_mask_bounds', 'trans_masking', ['Ems.Gen.msBoundsProg'], ['Ems.C08.bounds_generated', 'Ems.C08.bounds_slice_generated']),
+    (M, 'mask_grid_data_array', 'trans_masking', ['Ems.Gen.msApplyProg'], ['Ems.C08.apply_generated']),
+    (M, 'mask_grid_dataset', 'trans_masking', ['Ems.Gen.msDatasetSteps'], ['Ems.C08.dataset_steps_generated', 'Ems.C08.clip_var_from_source']),
     # ---- earlier phases (harness/pipelines.py -> Gen/Pipelines.lean; harness/tables.py -> Gen/Tables.lean)
     (G, 'CFGrid1D._make_polygons', 'pipelines', ['Ems.Gen.cf1dPolygonPoints'], ['Ems.C06.cf1d_pipeline_spec']),
     (G, 'CFGrid2D._make_polygons', 'pipelines', ['Ems.Gen.cf2dPolygonPoints'], ['Ems.C06.cf2d_pipeline_spec']),
